@@ -7,7 +7,7 @@ from vlib.props import c13
 PLUGINS = ["contains", "unique", "set", "union", "intersect", "filter", "takewhile", "all", "any"]
 OPS = {"contains", "unique", "set", "unionl", "intersectl", "unionm", "intersectm", "filter", "takewhile", "all", "any"}
 
-RULE = ("16 element types (==-comparable and not: basics incl. +0/-0 floats, named basics, comparable struct, pointers to structs "
+RULE = ("18 element types (==-comparable and not: basics incl. +0/-0 floats, named basics, comparable struct, pointers to structs "
         "incl. recursive and imported, slices, struct with pointers) and 6 key types x the boundary-biased list pool of C13 (nil, "
         "empty, duplicates fresh and aliased, Equal-but-not-identical variants, nil elements, random lists); contains with present / "
         "absent / Equal-but-not-identical / single-mutation items; unique and set on every list; union / intersect on 81 + random "
@@ -16,22 +16,8 @@ RULE = ("16 element types (==-comparable and not: basics incl. +0/-0 floats, nam
         "all-false, alternating, late first false, exhausted, random) and the call log in the answer; distinct = distinct op lines "
         "whose containers hold >= 2 elements in total")
 
-KNOWN_TEXT = {
-    "F18": "deriveUnion on maps writes into a nil first map when the second map is non-empty: panic instead of the union",
-}
-
-
-def classify(op, impl, model, spec):
-    f = op.rstrip("\n").split(" ", 4)
-    if f[2] == "unionm" and impl == "panic" and model == "panic":
-        args = c13.parse_args(f[4])
-        if len(args) == 2 and args[0] == "nil" and c13.list_len(args[1]) > 0:
-            return "F18"
-    return None
-
-
 def run(rep):
-    c13.run_family(rep, "C14", PLUGINS, OPS, RULE, classify=classify, known_text=KNOWN_TEXT)
+    c13.run_family(rep, "C14", PLUGINS, OPS, RULE)
     rep.notes.append("union / intersect over lists keep duplicates that the first list already has (the emitted code documents "
                      "\"assumes that the first list only contains unique items\"); the list specification used here is first list's order, "
                      "then the new items once each, which that behaviour satisfies")
